@@ -8,3 +8,54 @@ package network
 // ---- C07 ----------------------------------------------------------------------------------------------------------------
 //@ func (*Driver).Close [C07]
 //@   ensures #channel-closed-even-if-on-close-fails implClosed
+
+// ---- C04: privilege navigation --------------------------------------------------------------------------------------
+// prev(d, n): the configured previous (parent) level of level n
+//@ spec level(d *Driver, n string) *PrivilegeLevel := get(d.PrivilegeLevels, n)
+//@ spec prevOf(d *Driver, n string) string := get(d.PrivilegeLevels, n).PreviousPriv
+//@ spec linked(d *Driver, a string, b string) bool := prevOf(d, a) == b || prevOf(d, b) == a
+// a sound path: starts at cur, ends at tgt, consecutive levels are linked in the configured tree
+//@ spec soundPath(d *Driver, p []string, cur string, tgt string) bool := len(p) >= 1 && p[0] == cur && p[len(p)-1] == tgt && (forall i int :: 0 <= i && i < len(p) - 1 ==> linked(d, p[i], p[i+1]))
+
+// ASSUMED (unproved lemma, listed in evidence): the depth-first search returns a sound path of at least two levels
+// whenever current != target. Soundness needs an induction over the recursion with a visited list, completeness an
+// induction over the tree; neither is machine-checked here.
+//@ func (*Driver).buildPrivChangeMap
+//@   noverify
+//@   pure
+//@   ensures current != target ==> len(result) >= 2 && soundPath(d, result, current, target)
+
+//@ func (*Driver).determineCurrentPriv
+//@   noverify
+//@   modifies alloc()
+//@   ensures result.1 == nil ==> len(result.0) >= 1
+
+// acquired: ghost output of AcquirePriv - the level it reported as reached ("" on failure)
+//@ ghost acquired string
+
+//@ func (*Driver).processAcquirePriv [C04]
+//@   requires has(d.PrivilegeLevels, target)
+//@   modifies d.CurrentPriv, alloc()
+//@   ensures #nothing-on-error err != nil ==> action == "" && nextPriv == ""
+//@   ensures #at-target-no-action err == nil && action == "noAction" ==> d.CurrentPriv == target && nextPriv == target
+//@   ensures #otherwise-level-unknown err == nil && action != "noAction" ==> d.CurrentPriv == "UNKNOWN"
+//@   ensures #action-is-one-of err == nil ==> action == "noAction" || action == "escalateAction" || action == "deescalateAction"
+//@   at return assert #escalate-is-the-child-step err == nil && action == "escalateAction" ==> nextPriv == level(d, mapTo[1]).Name && prevOf(d, mapTo[1]) == current && soundPath(d, mapTo, current, target)
+//@   at return assert #deescalate-is-the-parent-step err == nil && action == "deescalateAction" ==> nextPriv == current && prevOf(d, current) == mapTo[1] && soundPath(d, mapTo, current, target)
+
+//@ func (*Driver).escalate [C04 C11 C12]
+//@   requires has(d.PrivilegeLevels, target)
+//@   modifies wire, rd, sent, quiet, echoed, optlog, alloc(), all(util.Queue.queue), all(util.Queue.depth)
+//@   ensures #plain-escalate-command !(level(d, target).EscalateAuth && d.AuthSecondary != "") ==> sent == old(sent) ++ strs(level(d, target).Escalate)
+//@   at call SendInteractive#1 assert #escalation-dialogue len(arg0) == 2 && arg0[0].ChannelInput == level(d, target).Escalate && arg0[0].ChannelResponse == level(d, target).EscalatePrompt && !arg0[0].HideInput && arg0[1].ChannelInput == d.AuthSecondary && arg0[1].HideInput
+//@   at call SendInteractive#1 assert #secret-only-with-auth level(d, target).EscalateAuth && d.AuthSecondary != ""
+
+//@ func (*Driver).escalate$1 [C04 C12]
+//@   modifies as(o, "*channel.OperationOptions").CompletePatterns, alloc()
+//@   ensures #complete-patterns-are-both-level-prompts typeis(o, "*channel.OperationOptions") ==> result == nil && as(o, "*channel.OperationOptions").CompletePatterns === refs(get(d.PrivilegeLevels, p.PreviousPriv).patternRe, p.patternRe)
+//@   ensures #ignored !typeis(o, "*channel.OperationOptions") ==> result == util.ErrIgnoredOption
+
+//@ func (*Driver).deescalate [C04]
+//@   requires has(d.PrivilegeLevels, target)
+//@   modifies wire, rd, sent, quiet, echoed, optlog, alloc(), all(util.Queue.queue), all(util.Queue.depth)
+//@   ensures #deescalate-command sent == old(sent) ++ strs(level(d, target).Deescalate)
